@@ -7,7 +7,8 @@ import container as C
 
 RULE = ("histories with a high share of invalid requests (duplicate type, full table, over-long / non-cp1252 label at the first or "
         "last item, over-long / non-cp1252 comment, unsupported format, wrong object, absent type on remove/replace, unused slot "
-        "between live blocks) on reachable states incl. N in {1,2,3}; for every raising call: sha-256 of the file before = after, "
+        "between live blocks) on reachable states incl. N in {1,2,3}; plus ONE block object through every history <= 4 of add/replace/setter (as is, grown, "
+        "changed at the same size), remove, re-entering, and REJECTED requests carrying that very object; for every raising call: sha-256 of the file before = after, "
         "Tdf.entries = table on disk; then the same history WITHOUT the rejected calls is run on a twin file and the two final "
         "files are compared; non-trivial = history with >=1 rejected call after >=1 successful mutation; distinct by (start, history)")
 ASSUMPTIONS = ["'rejected' = the call raises; whether a given request must be rejected is C11/C13's concern, not C07's"]
@@ -48,6 +49,9 @@ def twin(ctx, r, wd):
         if s["op"][0] != "reopen":
             now += 17
         if s["real"] != "ok":
+            sp = s.get("spec") or {}
+            if sp.get("grow") or sp.get("tilt"):
+                t.block_for(sp)        # the caller changed its object before the (rejected) call: that happened in both worlds
             continue
         if s["op"][0] != "reopen":
             t.now = now - 17
@@ -60,7 +64,11 @@ def twin(ctx, r, wd):
 
 def run(ctx):
     styles = ["fresh", "n1", "n2", "n3", "n5", "n14"]
-    runs = C.explore(ctx, ctx.n(500, 8000), 12, styles, p_invalid=0.55, hole=True, reuse=False)   # (the twin run needs blocks that do not depend on which earlier calls ran)
+    import itertools
+    # (the twin run needs blocks that do not depend on which earlier calls ran: no object reuse in the seeded histories; in the
+    #  one-object family the rejected requests hand the object over AS IT IS, so the twin sees the same objects)
+    runs = itertools.chain(C.explore(ctx, ctx.n(500, 8000), 12, styles, p_invalid=0.55, hole=True, reuse=False),
+                           C.explore_one_object(ctx, depth=5 if ctx.thorough else 4))
     wd = tempfile.mkdtemp(prefix="vtdf")
     try:
         for r in runs:
